@@ -42,5 +42,21 @@ def model_uuid(I, args, kwargs):
     raise Unsupported("uuid.UUID call form")
 
 
+def model_fullmatch(I, args, kwargs):
+    from . import regex
+    pattern, s = args
+    if not isinstance(pattern, str):
+        raise Unsupported("fullmatch with a symbolic pattern")
+    if not is_strlike(s):
+        return False
+    if isinstance(s, str):
+        import re
+        return re.fullmatch(pattern, s, re.DOTALL) is not None
+    exact = kwargs.get('exact', True)
+    return bool_value(z3.InRe(str_z3(s), regex.to_z3(pattern, exact)))
+
+
 def register_all(world):
+    from . import speclib
     world.register_lib(uuid.UUID, model_uuid)
+    world.register_lib(speclib.fullmatch, model_fullmatch)
